@@ -162,6 +162,10 @@ def run_C07(tier, seed):
     # proofs from the independent (guard-free) prover: value >= 2^bits under a promise; accepted iff the relation holds
     # AND the promise fits the bit length
     res.append(stages.api_stage("C07", "forge", tier, seed))
+    # the same inside batches expanded to the real chunk size (a batch of exactly one full chunk, and one beyond it)
+    fb = stages.api_stage("C07", "forge", tier, seed, groups=("rist",), scale="2:256", scale_min=0, filter_fn=lambda s: len(s["sc"]["members"]) >= 2)
+    fb.name = "api:forge@256"
+    res.append(fb)
     # the coefficient on H carries every promise: final-MSM scalars against the published relation
     sc, _ = stages.pick_scenarios("promise", tier, seed, lambda s: verifies(s) and nm_of(s) <= 16, 10 if q else 100, prop="C07")
     res.append(stages.trace_stage("C07", "promise-term", sc, seed, module="TraceVerify", calls="verify"))
@@ -220,6 +224,12 @@ def run_C13(tier, seed):
     sc = rv + sc
     sc2, _ = stages.pick_scenarios("complete", tier, seed, lambda s: honest(s) and nm_of(s) <= (8 if q else 32), 14 if q else 150, prop="C13")
     res.append(stages.trace_stage("C13", "nonces", sc + sc2, seed, module="TraceProve", consts={"Strict": "FALSE", "CheckArith": "TRUE", "CrossFresh": "TRUE"}, calls="prove"))
+    # long proofs (more folding rounds than the arithmetic replay covers, up to bits*aggregation = 4096): the nonces of EVERY round,
+    # read off the outputs - non-zero, pairwise distinct, each from a generator rebuilt after the preceding round was absorbed
+    big, _ = stages.pick_scenarios("complete", tier, seed, lambda s: honest(s) and nm_of(s) >= 256, 3 if q else 40, prop="C13",
+                                   must=lambda s: nm_of(s) >= 1024, must_count=2 if q else 10)
+    res.append(stages.trace_stage("C13", "long-nonces", big, seed, module="TraceProve", calls="prove", nonces=True, per_file=1,
+                                  consts={"Strict": "FALSE", "CheckArith": "FALSE", "CrossFresh": "FALSE", "NoncesOnly": "TRUE"}))
     return res
 
 
@@ -245,7 +255,10 @@ def run_C14(tier, seed):
         sc += rng_.sample(allh, min(len(allh), 150))
     res.append(stages.trace_stage("C14", "hedged-pairs", sc, seed, module="TraceProve", consts={"Strict": "FALSE", "CheckArith": "TRUE", "CrossFresh": "TRUE"}, calls="prove"))
     # rekey-with-witness and rebuild-after-absorption on every generator, in bulk (token mode)
-    sc2, _ = stages.pick_scenarios("complete", tier, seed, lambda s: honest(s) and nm_of(s) <= 128, 120 if q else 1200, prop="C14")
+    # (always including witnesses of several thousand bytes: many commitments times a high extension degree)
+    wbytes = lambda s: max(m["m"] * (8 + 32 * m["t"]) for m in s["sc"]["members"])
+    sc2, _ = stages.pick_scenarios("complete", tier, seed, lambda s: honest(s) and nm_of(s) <= 128, 120 if q else 1200, prop="C14",
+                                   must=lambda s: wbytes(s) > 4096, must_count=3 if q else 12)
     res.append(stages.trace_stage("C14", "rekey", sc2, seed, module="TraceProve", consts={"Strict": "FALSE", "CheckArith": "FALSE", "CrossFresh": "FALSE"}, calls="prove", arith=False, per_file=40))
     res.append(stages.api_stage("C14", "hedge", tier, seed))
     return res
